@@ -419,6 +419,24 @@ def packed_items():
                         b += e
                 its.append({'line': '\tdata %s' % ','.join(a for a, _ in args), 'want': b.hex(), 'sig': '%s/data/packed-strings' % cpu})
         out[cpu] = its
+    # AVR: the characters of strings are packed two per word and go on across arguments; an integer takes a word of its own, and
+    # a character still waiting for its partner is written out first, the upper half of its word 0 - nothing gets lost,
+    # everything stays in order
+    its = []
+    for n in (1, 2, 3):
+        for args in itertools.product(alpha + [('"vwxyz"', 'vwxyz')], repeat=n):
+            b = b''
+            for _, v in args:
+                if isinstance(v, int):
+                    if len(b) & 1:
+                        b += b'\0'
+                    b += v.to_bytes(2, 'little')
+                else:
+                    b += v.encode()
+            if len(b) & 1:
+                b += b'\0'
+            its.append({'line': '\tdata %s' % ','.join(a for a, _ in args), 'want': b.hex(), 'sig': 'atmega8/data/packed-strings'})
+    out['atmega8'] = its
     return out
 
 
